@@ -111,6 +111,14 @@ func checkAdd(rep *Report, ts int64, tn int32, ds int64, dn int32, validInputs b
 }
 
 func validDur(r *rand.Rand) (int64, int32) {
+	if r.Intn(40) == 0 {
+		// within a second of math.MaxInt64 / math.MinInt64 nanoseconds
+		nn := []int32{854775807, 854775806, 854775000, 854000000, 854775807 - int32(r.Intn(2000))}[r.Intn(5)]
+		if r.Intn(2) == 0 {
+			return 9223372036, nn
+		}
+		return -9223372036, -nn
+	}
 	var s int64
 	switch r.Intn(6) {
 	case 0:
